@@ -30,6 +30,9 @@ VERIF = os.path.dirname(HERE)
 LEAN = os.path.join(VERIF, "lean")
 REPO = os.environ.get("VERIF_REPO", "/repo")
 sys.path.insert(0, HERE)
+# the implementation under check is REPO's working tree (also for child processes)
+sys.path.insert(0, REPO)
+os.environ["PYTHONPATH"] = REPO + os.pathsep + os.environ.get("PYTHONPATH", "")
 
 ALLOWED_AXIOMS = {"propext", "Classical.choice", "Quot.sound"}
 FORBIDDEN = re.compile(
